@@ -20,6 +20,9 @@ class Device(ABC):
 
 
 class OutMixIn:
+    # nothing attached yet; the elements do not call __init__ of this mix-in
+    _out = None
+
     def __init__(self):
         self._out = None
 
